@@ -78,27 +78,33 @@ Fixpoint check_pay_hist (i : N) (st : list payment) (steps : list (pay_op * bool
 Definition store_agrees (universe : list grant) (model : store) (observed : list grant) : bool :=
   forallb (fun g => let '(m, a, p) := g in Bool.eqb (store_has model m a p) (store_has observed m a p)) universe.
 
-(** History of MarketManagePermissions requests.  The model store is re-synchronised with the
-    observed store after every step, so a tag names the first diverging step. *)
+(** History of MarketManagePermissions requests.  [ms_after] is read from the request's own cache
+    context BEFORE it is discarded or written, so for a request that fails inside UpdatePermissions
+    it shows the partial writes made before the error (compared with [update_permissions_raw]); the
+    history continues from it only when the request went through (rollback otherwise).  A tag names
+    the first diverging step. *)
 Fixpoint check_manage (i : N) (auth : N) (universe : list grant) (st : store) (steps : list manage_step) : list string :=
   match steps with
   | [] => []
   | s :: r =>
-      let '(st', ok) := manage_permissions auth st (ms_admin s) (ms_req s) in
+      let allowed := endpoint_allowed "MarketManagePermissions" auth st (u_market (ms_req s)) (ms_admin s) in
+      let '(raw, failed) := if allowed then update_permissions_raw st (ms_req s) else (st, true) in
+      let ok := snd (manage_permissions auth st (ms_admin s) (ms_req s)) in
       let errs :=
         tag (Bool.eqb ok (ms_ok s)) "corr:manage_permissions_outcome" ++
-        tag (store_agrees universe st' (ms_after s)) "corr:grants_after" ++
-        (* frame: every triple the request does not name is exactly as before *)
+        tag (Bool.eqb ok (negb failed)) "corr:model_inconsistent" ++
+        tag (store_agrees universe raw (ms_after s)) "corr:grants_after" ++
+        (* frame: every triple the request does not name is exactly as before, even in the partial
+           writes of a request that fails later *)
         tag (forallb (fun g => let '(m, a, p) := g in
                         names_grant (ms_req s) g || Bool.eqb (store_has st m a p) (store_has (ms_after s) m a p)) universe)
             "prop:unnamed_grant_changed" ++
-        (if ms_ok s then
-           tag (N.eqb (ms_admin s) auth || store_has st (u_market (ms_req s)) (ms_admin s) PPermissions)
-               "prop:permissions_changed_without_permission"
-         else tag (store_agrees universe st (ms_after s)) "prop:rejected_request_changed_grants")
+        (if N.eqb (ms_admin s) auth || store_has st (u_market (ms_req s)) (ms_admin s) PPermissions then []
+         else tag (negb (ms_ok s)) "prop:permissions_changed_without_permission" ++
+              tag (store_agrees universe st (ms_after s)) "prop:denied_request_changed_grants")
       in
       match errs with
-      | [] => check_manage (N.succ i) auth universe (ms_after s) r
+      | [] => check_manage (N.succ i) auth universe (if ms_ok s then ms_after s else st) r
       | e => map (fun t => (t ++ " @step " ++ N_to_string i)%string) e
       end
   end.
